@@ -88,12 +88,13 @@ def parsemsg(s, encoding='utf-8'):
 
     prefix = parseprefix(prefix)
 
+    # (parameters are separated by SPACE only: other white space is data)
     if s.find(' :') != -1:
         s, trailing = s.split(' :', 1)
-        args = s.split()
+        args = [arg for arg in s.split(' ') if arg]
         args.append(trailing)
     else:
-        args = s.split()
+        args = [arg for arg in s.split(' ') if arg]
 
     args = iter(args)
     command = next(args, None)
